@@ -91,7 +91,7 @@ def gen_fixture(s, indent="", in_class=False, name=None, deps=None):
         plist = plist[:cut] + ["*"] + plist[cut:]
     params += plist
     # body shape
-    yield_kind = rng.choice(["none", "none", "plain", "if", "for", "while", "with", "async_with", "async_for", "try", "except", "else", "finally", "nested_if_with"])
+    yield_kind = rng.choice(["none", "none", "plain", "if", "for", "while", "with", "async_with", "async_for", "try", "except", "else", "finally", "nested_if_with", "after_try", "after_if"])
     if yield_kind in ("async_with", "async_for") and not is_async:
         is_async = True
     is_gen = yield_kind != "none"
@@ -164,6 +164,10 @@ def gen_fixture(s, indent="", in_class=False, name=None, deps=None):
         s.emit(f"{bi}try:\n{bi}    pass\n{bi}except ValueError:\n{bi}    pass\n{bi}else:\n{bi}    {y}")
     elif yield_kind == "finally":
         s.emit(f"{bi}try:\n{bi}    pass\n{bi}finally:\n{bi}    {y}")
+    elif yield_kind == "after_try":
+        s.emit(f"{bi}try:\n{bi}    c = connect()\n{bi}except OSError:\n{bi}    c = None\n{bi}{y}")
+    elif yield_kind == "after_if":
+        s.emit(f"{bi}if x:\n{bi}    c = 1\n{bi}for q in ():\n{bi}    pass\n{bi}with a:\n{bi}    pass\n{bi}{y}")
     elif yield_kind == "nested_if_with":
         s.emit(f"{bi}if x:\n{bi}    with a as b:\n{bi}        for q in b:\n{bi}            {y}")
     if rng.random() < 0.15:
